@@ -25,7 +25,7 @@ ASSUMPTIONS = ["protocol as encoded in test-lifecycle.cpp generalised by the pro
 
 def budget(tier):
     if tier == "thorough":
-        return {"examples": 10000, "min_nontrivial": 2000}
+        return {"examples": 5000, "min_nontrivial": 2000}
     return {"examples": 300, "min_nontrivial": 200}
 
 
